@@ -1,7 +1,7 @@
 (* Pinned statements of C09 (generated once by tools/mkpins.py from coq/props/C09.v, then committed). *)
 From DV Require Import Model.Base Model.NameCheck Model.Parser Model.Header Model.Readers Model.Uncompress
   Model.Mutate Spec.NameSpec Spec.PacketSpec Spec.RecordSpec Proofs.Hoare Proofs.HeaderBits Proofs.InsertLemmas
-  Spec.PlainSpec Proofs.WalkValues Proofs.SetTtl Proofs.WalkSkip Proofs.PlainWf Proofs.InsertSpec Proofs.SetTtlInv Proofs.DeleteInv Proofs.SetNameInv Proofs.ReplaceInv props.C09.
+  Spec.PlainSpec Proofs.WalkValues Proofs.SetTtl Proofs.WalkSkip Proofs.PlainWf Proofs.InsertSpec Proofs.SetTtlInv Proofs.DeleteInv Proofs.SetNameInv Proofs.ReplaceInv Proofs.WalkInv Proofs.DecompressFirst props.C09.
 Check (C09_insert_appends : forall sec rr v it s',
   insert_core sec rr (v, it) = (s', Ok tt) ->
   exists p1 ins,
@@ -108,3 +108,11 @@ Check (C09_set_ip_on_decompressed : forall v it ip s' qls qt lA lN lR r x,
     length lA' = length lA /\ length lN' = length lN /\ length lR' = length lR /\
     lA ++ lN ++ lR = L1 ++ (r, x) :: L2 /\ lA' ++ lN' ++ lR' = L1 ++ (rv_at r (RdRaw ip) (rv_off r), RdRaw ip) :: L2).
 Print Assumptions C09_set_ip_on_decompressed.
+Check (C09_delete_on_parsed_packet : forall p v qls qt lA lN lR sec l1 r x l2 n s',
+  bytes_ok p -> parse p = Ok v -> reading p qls qt lA lN lR -> sec = SAnswer \/ sec = SNameServers \/ sec = SAdditional ->
+  sec_list sec lA lN lR = l1 ++ (r, x) :: l2 -> is_opt r = false ->
+  m_delete (v, cur_on sec r n) = (s', Ok tt) ->
+  dinv (fst s') /\ it_offset (snd s') = None /\ it_section (snd s') = sec /\
+  exists lA' lN' lR', reading (pp_packet (fst s')) qls qt lA' lN' lR' /\
+    map unpl (sec_list sec lA' lN' lR') = map unpl l1 ++ map unpl l2 /\ other_sections_kept sec lA lN lR lA' lN' lR').
+Print Assumptions C09_delete_on_parsed_packet.
